@@ -35,7 +35,7 @@ theorem headerFaults_fhdr (t : UInt8) (n : Nat) (h1 : 19 ≤ n) (h2 : n ≤ 4096
   have e1 : ¬ ((fhdr t n).take 16 ≠ Spec.marker) := by simp [fhdr_take]
   have e2 : ¬ (Spec.n16 ((fhdr t n).getD 16 0) ((fhdr t n).getD 17 0) < 19 ∨
       Spec.n16 ((fhdr t n).getD 16 0) ((fhdr t n).getD 17 0) > 4096) := by
-    rw [fhdr_16, fhdr_17, n16_u16 n (by omega)]; omega
+    rw [fhdr_16, fhdr_17, n16_u16_rd n (by omega)]; omega
   unfold Spec.headerFaults
   simp only [if_neg e1, if_neg e2]
   rfl
@@ -55,7 +55,7 @@ theorem frames_step (fuel : Nat) (t : UInt8) (body rest : Bytes) (hk : Spec.know
     simp [Spec.frame, Spec.marker, Spec.u16]
   rw [Spec.frames]
   rw [if_neg (by omega), if_neg (by omega)]
-  simp only [htake, fhdr_16, fhdr_17, fhdr_18, n16_u16 (19 + body.length) (by omega),
+  simp only [htake, fhdr_16, fhdr_17, fhdr_18, n16_u16_rd (19 + body.length) (by omega),
     headerFaults_fhdr t (19 + body.length) (by omega) (by omega)]
   rw [if_neg (by omega)]
   simp only [hk, hdrop, htk]
@@ -94,7 +94,7 @@ theorem frames_flatten_length (ms : List (UInt8 × Bytes)) :
 theorem prependHeader_frame_lt (m : Bytes) (t : UInt8) (h : m.length + 19 < 65536) :
     prependHeader m t = Spec.frame t m := by
   unfold prependHeader Spec.frame Spec.marker
-  rw [Gen.headerLength, be16Bytes_len16 _ h, Nat.add_comm]
+  rw [Gen.headerLength, be16Bytes_len16_rd _ h, Nat.add_comm]
 
 theorem encodeOpenBody_length (o : OpenMsg) (b : Bytes) (h : encodeOpenBody o = some b) :
     b.length ≤ 265 := by
